@@ -196,6 +196,22 @@ def job_calcmod(res, n, it):
         bad.append(am != 1 + draws[2 * i + 1] * S['amplnoise'])
     prove(res, '__calcModulation(3): entry i == (syncphase + xi_i*phasenoise + modampl*sin(modtimedelta*i), 1 + eta_i*amplnoise), one pair of draws per step', list(s.pc) + [usin(z3.RealVal(0)) == 0], z3.Or(*bad), key='calc-modulation')
 
+def job_queue_whole_run(res, model, n, it, S):
+    """the constructor plans the modulation of the *whole* run: after construction with `steps` = S the queue holds exactly S entries and the last one carries the global
+    step index S-1 in its sinusoid (so the modulation cannot restart inside a run of S steps).  S is concrete (it bounds the loop), amplitudes and draws are symbolic."""
+    bld = maps_build(); mod = load_module(bld, MAPS_MODS)
+    snap, R, pre = maps_world(bld, n, 1, it)
+    draws = []
+    ex = Exec(mod, snap, RealDom(), {UPDATE_SM: ext_noop, KICK_APPLY: ext_noop}); ex.ext_prefix.append((NORMAL_PFX, normal_real(draws))); ex.max_ins = 200_000_000; ex.time_budget = 1500
+    A = z3.Real('modampl'); inc = z3.Real('modtimeinc'); sp = z3.Real('phasespread'); sa = z3.Real('amplspread'); st = State(); st.pc += [A > 0, inc > 0, sp >= 0, sa >= 0]
+    if model == 'lin': s = ex.run1(st, 'e_new_drf_lin', [R['in'], R['out'], Fraction(f32(0.1)), Fraction(1e-3), Fraction(4.99e8), sp, sa, A, inc, S, it])
+    else: s = ex.run1(st, 'e_new_drf_sin', [R['in'], R['out'], Fraction(1e-3), Fraction(1.4e6), Fraction(4.99e8), Fraction(4.5e4), sp, sa, A, inc, S, it])
+    dyn = s.retval; account(res, ex, mod, [s])
+    nn = ex.run1(s, 'e_drf_nnext', [dyn]).retval
+    res.obs.append(Ob('DynamicRFKickMap (%s RF) constructed for a run of %d steps: the planned modulation has exactly %d entries, one per step of the whole run (got %s)' % (model, S, S, nn), 'holds' if nn == S else 'violated', key='queue-whole-run',
+                      cex=None if nn == S else {'replay': 'structural', 'steps': S, 'entries': nn}))
+    res.obs.append(Ob('one pair of noise draws per planned step (%d draws for %d steps)' % (len(draws), S), 'holds' if len(draws) == 2 * S else 'violated', key='queue-whole-run'))
+
 def replayer(bld):
     def rp(path, c):
         if c.get('replay') in ('ctor', 'e2e'):
@@ -219,6 +235,7 @@ def main(tier):
     jobs += [(job_zero_amplitude_queue, (m, 8, 4)) for m in ('lin', 'sin')]
     jobs += [(job_end_to_end, (m, 8, nb, it, p)) for m in ('lin', 'sin') for nb, it in ((1, 4), (2, 3)) for p in PS]
     jobs += [(job_queue, (8, 4, L)) for L in (1, 2, 3)] + [(job_calcmod, (8, 4))]
+    jobs += [(job_queue_whole_run, (m, 8, 4, S)) for m in ('lin', 'sin') for S in (700, 40000) if tier != 'quick' or S == 700 or m == 'sin']      # longer than the container's node size; thorough: longer than any plausible block size (2^15)
     if tier != 'quick':
         jobs += [(job_ctor_equiv, (m, n, nb, it)) for m in ('lin', 'sin') for n in (6, 9) for nb in (1, 3) for it in (1, 2, 3)]
         jobs += [(job_end_to_end, (m, n, nb, it, p)) for m in ('lin', 'sin') for n in (6, 9) for nb in (1, 2) for it in (1, 2, 4) for p in PS]
